@@ -1,20 +1,23 @@
 /-
-C09 — known finding F31: a task can be CREATED, DELETED and NEVER LISTED.
+C09 — F31 (REPAIRED): the run in which a task was CREATED, DELETED and NEVER LISTED, as a regression.
 
 C09: "every task the Job ever created stays listed in its status with its last known state even after the
-task object is gone".  `C09Hist.refs_monotone` is about names that WERE recorded.  `SyncOne` sends
-`Update` (metadata) and then `UpdateStatus` with the object it read from the cache, discarding what
-`Update` returned: whenever one pass changes both the metadata and the status, the status write carries a
-resourceVersion that the pass itself has just made stale and is refused as a Conflict — with no fault
-injected.  Parallel Job over two indexes, the task name of index `b` taken by a foreign pod: the pass
-creates the pod of index `a`, marks the admission error for `b` (annotation: metadata), sweeps the pod of
-`a` in the same pass (`shouldKillJob`: the annotation), writes the annotation, and its status write — which
-would have listed `job-a-0` with the marker Killed — conflicts.  The pod had not been acknowledged by any
-kubelet, so the API server removes it at once; the later passes see `status.tasks = []` and no pod.
-Replayed on the real controller by the corpus scenario `f31-created-task-deleted-and-never-listed`
-(monitor `created-stays-listed`).
+task object is gone".  `C09Hist.refs_monotone` is about names that WERE recorded.  Before the repair
+`SyncOne` sent `Update` (metadata) and then `UpdateStatus` with the object it read from the cache,
+discarding what `Update` returned: whenever one pass changed both the metadata and the status, the status
+write carried a resourceVersion that the pass itself had just made stale and was refused as a Conflict —
+with no fault injected.  Parallel Job over two indexes, the task name of index `b` taken by a foreign pod:
+the pass creates the pod of index `a`, marks the admission error for `b` (annotation: metadata), sweeps the
+pod of `a` in the same pass (`shouldKillJob`: the annotation), writes the annotation, and its status write —
+which lists `job-a-0` with the marker Killed — conflicted; the pod had not been acknowledged by any kubelet,
+so the API server removes it at once, and the later passes saw `status.tasks = []` and no pod.
+Now (`ExecutionControl.UpdateJobAndStatus`) the status write is submitted on top of the object `Update`
+returned and is applied: the task is listed.  Replayed on the real controller by the corpus scenario
+`f31-created-task-deleted-and-never-listed` (monitor `created-stays-listed`; fails on the tree before the
+repair).  The general statement is `C09Hist.created_stays_listed`.
 -/
 import FurikoModel.Props.SideCommon
+import FurikoModel.Props.C09Hist
 
 namespace Furiko.Props.C09Side
 open Furiko Furiko.JobCtl Furiko.Props.Side
@@ -35,25 +38,59 @@ def unlistedRun2 : List Action :=
   [.podGone "job-a-0", .deliverJob, .deliverPod, .deliverPod, .deliverPod, .work, .deliverJob, .work]
 def pK2 : Sys := runActs pK1 unlistedRun2
 
-/-- witness (F31): every action allowed, NO fault in the oracle.  The first pass creates `job-a-0`, gets
-AlreadyExists for `job-b-0`, deletes `job-a-0`, writes the annotation (ok) and has its status write refused
-as a Conflict; the authoritative status lists no task.  After the pod is gone and everything is delivered
-the Job is Finished / AdmissionError with `createdTasks` = 0 and `status.tasks = []`, nothing is queued, no
-event is pending and the last pass issues no call: the created task is never listed. -/
-theorem created_task_never_listed_witness :
-    Reach anyAction jobP pK2 ∧ pK1.faults = [] ∧
+/-- two more steps: the status the last pass wrote is delivered and the pass it triggers is idle -/
+def pK3 : Sys := runActs pK2 [.deliverJob, .work]
+
+/-- **regression (F31, repaired)**: the run of the former witness `created_task_never_listed_witness` —
+every action allowed, NO fault in the oracle.  The first pass creates `job-a-0`, gets AlreadyExists for
+`job-b-0`, deletes `job-a-0`, writes the annotation (ok) and — on top of the object that write returned —
+the status (ok; it was `conflict` before the repair): the authoritative status lists `job-a-0` with
+`createdTasks` = 1 and the deleted-status marker Killed.  After the pod is gone and everything is
+delivered the Job is Finished / AdmissionError, `job-a-0` is listed as Terminated / Killed, nothing is
+queued, no event is pending and the last pass issues no call: the created task stays listed. -/
+theorem created_task_listed_regression :
+    Reach anyAction jobP pK3 ∧ pK1.faults = [] ∧
     callsOf pK1 = [("create", "pods", "job-a-0", "ok", false), ("create", "pods", "job-b-0", "exists", false),
                    ("delete", "pods", "job-a-0", "ok", false), ("update", "jobs", "job", "ok", false),
-                   ("update", "jobs", "job", "conflict", true)] ∧
-    (jobView pK1 = some ("", true, 0, none) ∧ refsView pK1 = []) ∧
+                   ("update", "jobs", "job", "ok", true)] ∧
+    (jobView pK1 = some ("AdmissionError", true, 1, some (.admissionError, some 0)) ∧
+      pK1.job.map (fun j => j.job.status.tasks.map (fun r => (r.name, r.deletedStatus.map (·.result)))) =
+        some [("job-a-0", some .killed)]) ∧
     pK1.pods.map (fun p => (p.pod.name, p.pod.deletionTimestamp.isSome)) = [("job-b-0", false), ("job-a-0", true)] ∧
-    (jobView pK2 = some ("AdmissionError", true, 0, some (.admissionError, some 0)) ∧ refsView pK2 = []) ∧
-    pK2.pods.map (·.pod.name) = ["job-b-0"] ∧
-    (pK2.calls = [] ∧ pK2.q.queue = [] ∧ pK2.jobEvs.length = 0 ∧ pK2.podEvs.length = 0) :=
-  ⟨reach_run (reach_run (.init 0 {} Ex.d (by decide +kernel)) unlistedRun1 (by decide +kernel)) unlistedRun2
-      (by decide +kernel),
+    (jobView pK3 = some ("AdmissionError", true, 1, some (.admissionError, some 0)) ∧
+      refsView pK3 = [("job-a-0", .terminated, .killed, none, some 0)]) ∧
+    pK3.pods.map (·.pod.name) = ["job-b-0"] ∧
+    (pK3.calls = [] ∧ pK3.q.queue = [] ∧ pK3.jobEvs.length = 0 ∧ pK3.podEvs.length = 0) :=
+  ⟨reach_run (reach_run (reach_run (.init 0 {} Ex.d (by decide +kernel)) unlistedRun1 (by decide +kernel))
+      unlistedRun2 (by decide +kernel)) [.deliverJob, .work] (by decide +kernel),
     by decide +kernel, by decide +kernel, ⟨by decide +kernel, by decide +kernel⟩, by decide +kernel,
     ⟨by decide +kernel, by decide +kernel⟩, by decide +kernel,
     ⟨by decide +kernel, by decide +kernel, by decide +kernel, by decide +kernel⟩⟩
+
+/-- non-vacuity: the pass of the run does write BOTH the annotation and the status (the case the repair is
+about), and the pod it created is gone from the server when the run ends -/
+example : (callsOf pK1).filter (fun c => c.1 = "update") =
+    [("update", "jobs", "job", "ok", false), ("update", "jobs", "job", "ok", true)] ∧
+    (pK3.pods.map (·.pod.name)).contains "job-a-0" = false := ⟨by decide +kernel, by decide +kernel⟩
+
+/-- the state in which the first pass of the run starts -/
+def pK0 : Sys := runActs p0 [.createForeign foreignB, .deliverPod, .deliverJob]
+
+/-- non-vacuity of `C09Hist.created_stays_listed` for the case the repair is about: the first pass of this
+run satisfies its premises (`sync` returns without error, no fault is pending for the two writes, the cached
+Job carries the stored resourceVersion), it is a pass that SETS the admission-error annotation (the cached
+Job does not carry it, the computed one does) and changes the status, and the pod it creates is new. -/
+example :
+    (match (pK0.q.advance pK0.clock).get with
+      | some (_, q1) =>
+        decide ((sync (C09Hist.passState pK0 q1) (Ex.cachedOf pK0)).2.2.2.1 = true) &&
+        decide ((sync (C09Hist.passState pK0 q1) (Ex.cachedOf pK0)).1.faults = []) &&
+        decide (((sync (C09Hist.passState pK0 q1) (Ex.cachedOf pK0)).1.job.map (·.rv)) = some (Ex.cachedOf pK0).rv) &&
+        decide ((sync (C09Hist.passState pK0 q1) (Ex.cachedOf pK0)).2.1.admissionError = true) &&
+        decide ((sync (C09Hist.passState pK0 q1) (Ex.cachedOf pK0)).2.1.status ≠ (Ex.cachedOf pK0).job.status)
+      | none => false) = true ∧
+    pK0.jobCache = some (Ex.cachedOf pK0) ∧ (Ex.cachedOf pK0).job.admissionError = false ∧
+    pK0.pods.map (·.pod.name) = ["job-b-0"] ∧ step pK0 .work = pK1 :=
+  ⟨by decide +kernel, by decide +kernel, by decide +kernel, by decide +kernel, rfl⟩
 
 end Furiko.Props.C09Side
